@@ -217,11 +217,14 @@ pub fn repo_cfg() -> impl Strategy<Value = RepoCfg> {
     (
         prop_oneof![1 => Just(1u8), 3 => Just(2u8)],
         prop_oneof![
-            2 => Just(None),
-            2 => Just(Some(0)),
-            2 => (1i32..=6).prop_map(Some),
-            1 => (-7i32..=-1).prop_map(Some),
-            1 => (7i32..=22).prop_map(Some),
+            40 => Just(None),
+            40 => Just(Some(0)),
+            40 => (1i32..=6).prop_map(Some),
+            20 => (-7i32..=-1).prop_map(Some),
+            // zstd's "ultra" levels allocate about 1 GB per compression context and the packer
+            // compresses on one thread per core: kept rare, and serialised by `ultra_gate`
+            20 => (7i32..=19).prop_map(Some),
+            1 => (20i32..=22).prop_map(Some),
         ],
         chunker,
         pack(),
@@ -258,8 +261,31 @@ pub fn estr(e: &rustic_core::RusticError) -> String {
     e.display_log()
 }
 
+static ULTRA: std::sync::Mutex<Option<std::fs::File>> = std::sync::Mutex::new(None);
+
+/// Memory gate for zstd's ultra levels (20–22): a backup at such a level needs several GB (one
+/// ~1 GB context per packer thread). At most one such case runs at a time across all worker
+/// processes (advisory lock on a file in /dev/shm); the lock is held until this process passes the
+/// gate again.
+pub fn ultra_gate(level: Option<i32>) {
+    use std::os::fd::AsRawFd;
+    let mut g = ULTRA.lock().unwrap();
+    *g = None;
+    if level.is_some_and(|l| l >= 20) {
+        let dir = if std::path::Path::new("/dev/shm").is_dir() { "/dev/shm" } else { "/tmp" };
+        if let Ok(f) = std::fs::OpenOptions::new().create(true).write(true).truncate(false).open(format!("{dir}/vp-ultra.lock")) {
+            // SAFETY: plain system call on an open descriptor
+            unsafe {
+                _ = libc::flock(f.as_raw_fd(), libc::LOCK_EX);
+            }
+            *g = Some(f);
+        }
+    }
+}
+
 /// init a repository with the given configuration on the storage
 pub fn init_repo(be: MemBackend, cfg: &RepoCfg) -> Result<RepoOpen, String> {
+    ultra_gate(cfg.compression);
     Repository::new(&repo_opts(), &backends(be))
         .map_err(|e| estr(&e))?
         .init_with_config(&cfg.credentials(), &KeyOptions::default(), cfg.config_file())
